@@ -31,7 +31,7 @@ fn info(tier: Tier) -> CheckInfo {
         id: "C17",
         level: "model_checking",
         rule: format!(
-            "Tier {}: one real node, 3 scripted storers. Part 1: P1 = put_mutable(seq 5); P2 on the same key and salt with relation in {{identical item, lower seq, equal seq other value, higher seq}} x cas in {{none, 5, 4}} x salt in {{none, s}}, issued before every event (network event or loop iteration that changes the node's put state) of P1's lifetime and 1 s after its completion. Whether P1 is still in flight when P2 is handled is read from the node's snapshot. Oracle: in flight -> identical: both Ok; lower seq: NotMostRecent; otherwise no cas: ConflictRisk, cas = 5: P2 proceeds and both callers get the network's answer, other cas: CasFailed; after completion: no local error. Part 2: every split of {{ack, 301, 302}} among {} storers in every arrival order, for put_mutable (301/302 from more than half => CasFailed/NotMostRecent; below a majority either kind of error, Ok only with an ack) and for put_immutable / announce_peer / announce_signed_peer through the typed APIs (never a concurrency error, never a panic).",
+            "Tier {}: one real node, 3 scripted storers. Part 1: P1 = put_mutable(seq 5); P2 on the same key and salt with relation in {{identical item, lower seq, equal seq other value, higher seq}} x cas in {{none, 5, 4}} x salt in {{none, s}}, issued before every event (network event or loop iteration that changes the node's put state) of P1's lifetime and 1 s after its completion. Whether P1 is still in flight when P2 is handled is read from the node's snapshot. Oracle: in flight -> identical: both Ok; lower seq: NotMostRecent; otherwise no cas: ConflictRisk, cas = 5: P2 proceeds and both callers get the network's answer, other cas: CasFailed; a put refused locally is never sent (no storer receives its item); after completion: no local error. Part 2: every split of {{ack, 301, 302}} among {} storers in every arrival order, for put_mutable (301/302 from more than half => CasFailed/NotMostRecent; below a majority either kind of error, Ok only with an ack) and for put_immutable / announce_peer / announce_signed_peer through the typed APIs (never a concurrency error, never a panic).",
             tier.name(),
             if tier.is_quick() { "3" } else { "3 and 4" }
         ),
@@ -193,6 +193,22 @@ fn part1(cfg: &P1Cfg, track: bool) -> Out1 {
                 format!("second-put-result/{}/{}/{}", if in_flight { "in-flight" } else { "after-completion" }, REL[cfg.rel], CAS[cfg.cas]),
                 format!("second put ({}, {}) handled {} returned {r2}, expected {expect:?} (first put returned {r1})", REL[cfg.rel], CAS[cfg.cas], if in_flight { "while the first was in flight" } else { "after the first completed" }),
             ));
+        }
+        // a write that was refused locally must not have gone out: no storer may have received
+        // the second item
+        if in_flight && cfg.rel != 0 && ["ConflictRisk", "CasFailed", "NotMostRecent"].contains(&r2.as_str()) {
+            let want_v: &[u8] = match cfg.rel {
+                1 => b"older",
+                2 => b"other",
+                _ => b"newer",
+            };
+            let leaked = net.eps.iter().filter(|e| e.puts.iter().any(|p| p.raw.arg_bytes("v") == Some(want_v))).count();
+            if leaked > 0 {
+                problems.push((
+                    format!("refused-put-was-sent/{}/{}", REL[cfg.rel], CAS[cfg.cas]),
+                    format!("second put ({}, {}) was refused locally with {r2} while the first was in flight, yet {leaked} storer(s) received its item", REL[cfg.rel], CAS[cfg.cas]),
+                ));
+            }
         }
         // the first call's outcome: Ok unless it was superseded and the network failed
         if r1 != "Ok" {
